@@ -42,8 +42,8 @@ theorem Inv.cur_lt {cfg : Cfg} {s : St} {d : Disk} (h : Inv cfg s d) {j : Job} (
   · exact (h.run hp).nums.2
 
 theorem inv_job_append_normal {cfg : Cfg} (hg : cfg.Good) {s : St} {d : Disk} (h : Inv cfg s d) {j : Job}
-    (hj : s.job = some j) (hpc : j.pc = .append) (hopen : s.manifestOpen = true) {s' : St} {d' : Disk}
-    (hs : stepJob cfg s d j false .ok = some (s', d')) : Inv cfg s' d' := by
+    (hj : s.job = some j) (hpc : j.pc = .append) (hopen : s.manifestOpen = true) (hmfl : s.manifestFailed = false)
+    {s' : St} {d' : Disk} (hs : stepJob cfg s d j false .ok = some (s', d')) : Inv cfg s' d' := by
   have hok := h.job
   rw [hj] at hok
   have hok : JobOK cfg s d j := hok
@@ -53,9 +53,9 @@ theorem inv_job_append_normal {cfg : Cfg} (hg : cfg.Good) {s : St} {d : Disk} (h
   | none => simp [stepJob, hpc, he] at hs
   | some e =>
     cases hm : s.manifestFd with
-    | none => simp [stepJob, hpc, he, hopen, hm] at hs
+    | none => simp [stepJob, hpc, he, hopen, hm, hmfl] at hs
     | some m =>
-      rw [stepJob_append_normal hg hpc he hopen hm] at hs
+      rw [stepJob_append_normal hg hpc he hopen hm hmfl] at hs
       simp only [Option.some.injEq, Prod.mk.injEq] at hs
       obtain ⟨rfl, rfl⟩ := hs
       have hc : d.current = some m := by rw [← hfd, hm]
@@ -76,7 +76,7 @@ theorem inv_job_append_normal {cfg : Cfg} (hg : cfg.Good) {s : St} {d : Disk} (h
       rw [hlv] at hmir
       have hmir : Mirror s v := hmir
       let e' : MRec := { e with nf := s.nextFile }
-      have htorn : e'.torn = false := hed.shape.2.2.1
+      have htorn : e'.torn = false := hed.shape.2.1
       have hstep : ((replayM cfg mf.all).step cfg e').view? =
           some ⟨applyEdit v.live e, e.jn.getD v.jn, e.sq.getD v.sq, s.nextFile⟩ := by
         rw [viewAt_all] at hvl
@@ -98,16 +98,7 @@ theorem inv_job_append_normal {cfg : Cfg} (hg : cfg.Good) {s : St} {d : Disk} (h
         exact hstep
       have hmfd' : MfdOK { s with job := some j' } { d with manifests := d.manifests.modify m (·.append e') } :=
         MfdOK.of_fd (j := j') rfl (by intro x hx; cases hx) hfd
-      have hjn : v.jn ≤ e.jn.getD v.jn := by
-        obtain ⟨_, _, _, _, hjs, _⟩ := hed.shape
-        obtain ⟨x, ex⟩ := Option.isSome_iff_exists.1 hjs
-        have := hed.mono.1
-        simp only [ex, Option.getD_some] at this ⊢
-        exact this
-      have hejn0 : e.jn.getD v.jn = e.jn.getD 0 := by
-        obtain ⟨_, _, _, _, hjs, _⟩ := hed.shape
-        obtain ⟨x, ex⟩ := Option.isSome_iff_exists.1 hjs
-        rw [ex]; rfl
+      have hjn : v.jn ≤ e.jn.getD v.jn := hed.mono.1
       constructor
       · exact hdisk
       · apply h.mm.append hc e'
@@ -117,28 +108,23 @@ theorem inv_job_append_normal {cfg : Cfg} (hg : cfg.Good) {s : St} {d : Disk} (h
         simp only [Holds]
         have hcl := h.cur_lt hj
         rw [hc] at hcl
-        obtain ⟨_, _, _, _, _, hss⟩ := hed.shape
-        obtain ⟨y, ey⟩ := Option.isSome_iff_exists.1 hss
-        have hm := hed.mono
-        simp only [ey, Option.getD_some] at hm ⊢
-        exact ⟨hcl, hm.2.1, (hb.all mf hcur _ (Nat.le_refl _) v hvl).2.1⟩
+        exact ⟨hcl, hed.mono.2.1, (hb.all mf hcur _ (Nat.le_refl _) v hvl).2.1⟩
       · intro _
-        apply hb.append hc e' ⟨rfl, rfl, rfl, rfl⟩
+        apply ViewBounds.append (s' := { s with job := some j' }) hb hc e'
+          ⟨h.seqHi_step hj rfl rfl rfl rfl (fun hb' => nomatch hb'), rfl, rfl, rfl⟩
         intro mf1 hc1
         rw [hcur] at hc1; cases hc1
-        rw [hstep]
-        obtain ⟨_, _, _, _, hjs, hss⟩ := hed.shape
-        obtain ⟨x, ex⟩ := Option.isSome_iff_exists.1 hjs
-        obtain ⟨y, ey⟩ := Option.isSome_iff_exists.1 hss
-        have hm := hed.mono
-        simp only [ex, ey, Option.getD_some] at hm ⊢
-        exact ⟨hm.2.2.1, Nat.le_refl _, hm.2.2.2.1⟩
+        rw [hstep, seqHi_post (s := { s with job := some j' }) (j := j') rfl rfl]
+        exact ⟨hed.mono.2.2.1, Nat.le_refl _, hed.mono.2.2.2.1⟩
       · intro hr
         have hrun := h.run hr
         rw [goto_eq]
         apply RunOK.job_step (d' := { d with manifests := d.manifests.modify m (·.append e') }) hrun j' s.nextFile
           s.live s.stJn s.stSq s.manifestFd s.manifestOpen (Nat.le_refl _) rfl
-          ⟨hmfd', hrun.mfd.2⟩ hrun.nums.2 (fun hb' => by cases hb')
+          ⟨hmfd', hrun.mfd.2⟩ hrun.nums.2 (hrun.hnc_post (j' := j') hok hj hr rfl rfl (fun hk => by
+            rw [hlv', hlv]
+            obtain ⟨a, b⟩ := (hok.edit_nums he).1 hk
+            simp only [Holds, a, b, Option.getD_none, Nat.le_refl, and_self]))
         rw [curManifest_modify hc, hcur]
         simp only [Option.map_some, Holds]
         rw [viewAt_append_le cfg mf e' (Nat.zero_le _), hparts.hv0]
@@ -156,7 +142,7 @@ theorem inv_job_append_normal {cfg : Cfg} (hg : cfg.Good) {s : St} {d : Disk} (h
           exact hjn
         · rw [hlv']
           simp only [Holds]
-          rw [hejn0]
+          rw [hok.jn_getD (by rw [hr]; decide) he]
           exact h.todo_ge_edit hj he hrs hr
       · intro hcr; exact absurd hcr hph
       · show JobOK cfg _ _ j'
@@ -173,7 +159,9 @@ theorem inv_job_append_normal {cfg : Cfg} (hg : cfg.Good) {s : St} {d : Disk} (h
           refine ⟨hopen, ?_⟩
           rw [curManifest_modify hc, hcur]
           simp only [Option.map_some, Holds]
-          refine ⟨by simp only [LogFile.append, hun, List.nil_append]; rfl, ?_⟩
+          refine ⟨by
+            simp only [LogFile.append, hun, List.nil_append, List.head?_cons, Holds]
+            exact ⟨rfl, Nat.le_refl _⟩, ?_⟩
           rw [viewAt_append_le cfg mf e' (Nat.zero_le _)]
           have : viewAt cfg mf 0 = some v := by
             have := hvl; rw [hun] at this; exact this
@@ -184,11 +172,19 @@ theorem inv_job_append_normal {cfg : Cfg} (hg : cfg.Good) {s : St} {d : Disk} (h
           simp only [Holds]
           exact late_not_rm (j := j') ⟨(by intro l x; cases x), (by intro l x; cases x), (by intro l x; cases x)⟩
         · intro hn; rw [he] at hn; cases hn
+        · exact fun _ => rfl
+        · exact fun _ => rfl
+        · intro _
+          rw [hlv']
+          intro o ho
+          refine ⟨mem_applyEdit.2 (Or.inr ?_), hok.outs_on_disk hbc hlate.2 o ho⟩
+          rw [hed.shape.1]
+          exact List.mem_map.2 ⟨o, ho, rfl⟩
 
 
 /-- `ViewBounds` after `Sync` of the current manifest -/
 theorem ViewBounds.sync {cfg : Cfg} {s s' : St} {d : Disk} {m : Nat} (h : ViewBounds cfg s d) (hc : d.current = some m)
-    (hs : s'.seq = s.seq ∧ s'.nextFile = s.nextFile ∧ s'.phase = s.phase ∧ s'.jcur = s.jcur) :
+    (hs : seqHi s ≤ seqHi s' ∧ s'.nextFile = s.nextFile ∧ s'.phase = s.phase ∧ s'.jcur = s.jcur) :
     ViewBounds cfg s' { d with manifests := d.manifests.modify m (·.sync) } := by
   unfold ViewBounds at h ⊢
   rw [curManifest_modify hc]
@@ -201,8 +197,10 @@ theorem ViewBounds.sync {cfg : Cfg} {s s' : St} {d : Disk} {m : Nat} (h : ViewBo
     intro k hk
     have : k = 0 := by simpa [LogFile.sync] using hk
     subst this
-    rw [viewAt_sync, e1, e2, e3, e4]
-    exact h _ (Nat.le_refl _)
+    rw [viewAt_sync, e2, e3, e4]
+    have hh : Holds (viewAt cfg mf mf.unsynced.length) fun v =>
+        v.sq ≤ seqHi s ∧ v.nf ≤ s.nextFile ∧ (s.phase = .running → v.jn ≤ s.jcur) := h _ (Nat.le_refl _)
+    exact hh.imp (fun v hv => ⟨Nat.le_trans hv.1 e1, hv.2⟩)
 
 
 /-- a job that is not removing has an edit -/
@@ -243,10 +241,12 @@ theorem inv_job_sync {cfg : Cfg} {s : St} {d : Disk} (h : Inv cfg s d) {j : Job}
     obtain ⟨hun, hmir0⟩ := holds_some hman hcur
     rw [hparts.hv0] at hmir0
     have hmir0 : Mirror s v0 := hmir0
-    let e' : MRec := { e with nf := s.nextFile }
-    have htorn : e.torn = false := by have := hok.shape; rw [he] at this; exact this.2.2.1
+    rw [holds_iff] at hun
+    obtain ⟨r0, _, hun, _⟩ := hun
+    let e' : MRec := { e with nf := r0.nf }
+    have htorn : e.torn = false := by have := hok.shape; rw [he] at this; exact this.2.1
     -- the last view is the mirrored view extended by the edit
-    have hv_eq : v = ⟨applyEdit v0.live e, e.jn.getD v0.jn, e.sq.getD v0.sq, s.nextFile⟩ := by
+    have hv_eq : v = ⟨applyEdit v0.live e, e.jn.getD v0.jn, e.sq.getD v0.sq, r0.nf⟩ := by
       have h0 := hparts.hv0
       unfold viewAt at h0 hvl
       simp only [List.take_zero, List.append_nil] at h0
@@ -269,12 +269,14 @@ theorem inv_job_sync {cfg : Cfg} {s : St} {d : Disk} (h : Inv cfg s d) {j : Job}
     · exact h.disk.manifest_sync hc
     · exact h.mm.sync hc ⟨_, _, h.disk⟩
     · intro _
-      exact hb.sync hc ⟨rfl, rfl, rfl, rfl⟩
+      exact ViewBounds.sync (s' := { s with job := some j' }) hb hc
+        ⟨h.seqHi_step hj rfl rfl rfl rfl (fun hb' => nomatch hb'), rfl, rfl, rfl⟩
     · intro hr
       have hrun := h.run hr
       rw [goto_eq]
       apply RunOK.job_step (d' := d1) hrun j' s.nextFile s.live s.stJn s.stSq s.manifestFd s.manifestOpen
-        (Nat.le_refl _) rfl ⟨hmfd', hrun.mfd.2⟩ hrun.nums.2 (fun hb' => by cases hb')
+        (Nat.le_refl _) rfl ⟨hmfd', hrun.mfd.2⟩ hrun.nums.2
+        (hrun.hnc_post (j' := j') hok hj hr rfl rfl (fun _ => views_refl hlv' hlv))
       show Holds (curManifest { d with manifests := d.manifests.modify m (·.sync) }) _
       rw [curManifest_modify hc, hcur]
       simp only [Option.map_some, Holds]
@@ -319,5 +321,12 @@ theorem inv_job_sync {cfg : Cfg} {s : St} {d : Disk} (h : Inv cfg s d) {j : Job}
         simp only [Holds]
         exact late_not_rm (j := j') ⟨(by intro l x; cases x), (by intro l x; cases x), (by intro l x; cases x)⟩
       · intro hn; rw [he] at hn; cases hn
+      · exact fun _ => rfl
+      · exact fun _ => rfl
+      · intro _
+        have := hok.committed (by rw [hpc]; rfl)
+        rw [hlv] at this
+        rw [hlv']
+        exact this
 
 end GoLevel.Dur
